@@ -106,6 +106,7 @@ class Interp:
         self.callsites = {}        # (callee, line) -> [reached, normal return feasible]
         self.dmap_keys = {}        # Ref -> key terms used on this path (for model concretisation)
         self.shadowed = []         # newer heaps swapped out while an older state is being evaluated (old(), ...)
+        self.undeclared_fields = set()
         self.loop_aliases = []     # per active loop contract: contract name -> actual local name (renamed locals)
 
     # ================================================================ fresh
@@ -1459,6 +1460,20 @@ class Interp:
                 finally:
                     self.hyp.pop()
                 return VBool(z3.Implies(a, b))
+            if nm == "invariant_of":
+                # the class invariants of another object of a class under contract (e.g. a parameter)
+                o = self.force(self.eval(n.args[0]))
+                if o.tag != "obj":
+                    raise SpecError("invariant_of(%s)" % o.tag)
+                from .verify import class_invariants
+                conj = []
+                self.frames.append(Frame(None, {"self": o}))
+                try:
+                    for _, clause in class_invariants(self.cset, o.ref.cls):
+                        conj.append(self.spec_bool(clause))
+                finally:
+                    self.frames.pop()
+                return VBool(z3.And(*conj) if conj else z3.BoolVal(True))
             if nm == "ite":
                 if self.ctx.branch(self.truth(self.eval(n.args[0]))):
                     return self.eval(n.args[1])
@@ -2077,7 +2092,13 @@ class Interp:
                 return
             if self.field_shape(base.ref, t.attr) is None and (base.ref, t.attr) not in self.heap.data \
                     and base.ref.shape is not None and not getattr(base.ref, "fresh", False):
-                raise Unsupported("assignment to undeclared field %s.%s" % (base.ref.name, t.attr))
+                # a field the contracts do not know (e.g. introduced by a change to the code): it is stored like any
+                # other field, but it is outside the specified state - no frame obligation is generated for it
+                self.undeclared_fields.add((base.ref, t.attr))
+                note = "field %s.%s is not declared in the contracts (written by the code; outside the specified " \
+                       "state)" % (base.ref.cls, t.attr)
+                if note not in self.notes:
+                    self.notes.append(note)
             self.write_field(base.ref, t.attr, v)
         elif isinstance(t, ast.Subscript):
             base = self.force(self.eval(t.value))
